@@ -105,6 +105,87 @@ Proof.
   cbn [rev]. rewrite rev_involutive. exact Ct.
 Qed.
 
+(* ================================================================== chunks of a text followed by more text *)
+Lemma chunks_aux_open P : forall cur b,
+  (P = EmptyString -> cur <> EmptyString /\ b = false) -> (P <> EmptyString -> ends_nonblank P = true) ->
+  exists init c', c' <> EmptyString /\ forall tail, chunks_aux cur b (P ++ tail) = (init ++ chunks_aux c' false tail)%list.
+Proof.
+  induction P as [|a r IH]; intros cur b H0 H1.
+  - destruct (H0 eq_refl) as [Hc ->]. exists [], cur. split; [exact Hc|]. intros tail. reflexivity.
+  - assert (E : ends_nonblank (String a r) = true) by (apply H1; discriminate).
+    assert (Hr : r <> EmptyString -> ends_nonblank r = true) by (intros N; destruct r; [contradiction|exact E]).
+    assert (Ha : r = EmptyString -> Ascii.eqb a sp = false).
+    { intros ->. cbn [ends_nonblank] in E. rewrite Ascii.eqb_sym. destruct (Ascii.eqb sp a); [cbn in E; discriminate|reflexivity]. }
+    destruct cur as [|c0 cr].
+    + destruct (IH (s1 a) (Ascii.eqb a sp)) as [init [c' [Hc' Ht]]].
+      * intros Er. split; [discriminate|apply Ha; exact Er].
+      * exact Hr.
+      * exists init, c'. split; [exact Hc'|]. intros tail. simpl. apply Ht.
+    + destruct (Bool.eqb (Ascii.eqb a sp) b) eqn:Eb.
+      * destruct (IH (String c0 cr ++ s1 a) b) as [init [c' [Hc' Ht]]].
+        -- intros Er. split; [discriminate|]. apply Bool.eqb_prop in Eb. rewrite <- Eb. apply Ha. exact Er.
+        -- exact Hr.
+        -- exists init, c'. split; [exact Hc'|]. intros tail.
+           change (String a r ++ tail) with (String a (r ++ tail)). cbn [chunks_aux]. rewrite Eb. apply Ht.
+      * destruct (IH (s1 a) (Ascii.eqb a sp)) as [init [c' [Hc' Ht]]].
+        -- intros Er. split; [discriminate|apply Ha; exact Er].
+        -- exact Hr.
+        -- exists (String c0 cr :: init), c'. split; [exact Hc'|]. intros tail.
+           change (String a r ++ tail) with (String a (r ++ tail)). cbn [chunks_aux]. rewrite Eb. rewrite Ht. reflexivity.
+Qed.
+
+Lemma chunks_open P : ends_nonblank P = true ->
+  exists init c', c' <> EmptyString /\ forall tail, chunks (P ++ tail) = (init ++ chunks_aux c' false tail)%list.
+Proof.
+  intros E. unfold chunks. apply chunks_aux_open; [|intros _; exact E]. intros ->. discriminate.
+Qed.
+
+Lemma spaces_snoc n : spaces n ++ s1 sp = spaces (S n).
+Proof. induction n; simpl; [reflexivity|]. rewrite IHn. reflexivity. Qed.
+
+Lemma chunks_aux_blank_run j : forall m, chunks_aux (spaces (S m)) true (spaces j) = [spaces (S m + j)].
+Proof.
+  induction j as [|j IH]; intros m.
+  - rewrite Nat.add_0_r. reflexivity.
+  - cbn [spaces chunks_aux]. rewrite Ascii.eqb_refl. cbn [Bool.eqb].
+    change (String sp (spaces m) ++ s1 sp) with (spaces (S m) ++ s1 sp). rewrite spaces_snoc, IH.
+    replace (S (S m) + j) with (S m + S j) by lia. reflexivity.
+Qed.
+
+Lemma chunks_aux_spaces c n : c <> EmptyString -> chunks_aux c false (spaces (S n)) = [c; spaces (S n)].
+Proof.
+  intros Hc. destruct c as [|c0 cr]; [contradiction|]. cbn [spaces chunks_aux]. rewrite Ascii.eqb_refl. cbn [Bool.eqb].
+  change (s1 sp) with (spaces 1). rewrite chunks_aux_blank_run. reflexivity.
+Qed.
+
+Lemma chunks_aux_end c : c <> EmptyString -> chunks_aux c false EmptyString = [c].
+Proof. destruct c; [contradiction|reflexivity]. Qed.
+
+Lemma is_blank_spaces n : is_blank (spaces n) = true.
+Proof. unfold is_blank. induction n; simpl; [reflexivity|exact IHn]. Qed.
+
+(* a line that fits and ends in blanks loses them *)
+Lemma fill_fits_trailing w h body n :
+  ends_nonblank body = true -> String.length (body ++ spaces (S n)) <= w -> fill w h (body ++ spaces (S n)) = body.
+Proof.
+  intros E L. unfold fill. destruct (chunks_open body E) as [init [c' [Hc' Ht]]].
+  pose proof (Ht (spaces (S n))) as C1. rewrite (chunks_aux_spaces c' n Hc') in C1.
+  pose proof (Ht EmptyString) as C0. rewrite app_nil_r_s, (chunks_aux_end c' Hc') in C0.
+  pose proof (concat_chunks body) as Cb. rewrite C0 in Cb.
+  pose proof (total_concat (chunks (body ++ spaces (S n)))) as Tt. rewrite concat_chunks in Tt.
+  rewrite C1 in *. set (cs := (init ++ [c'; spaces (S n)])%list) in *.
+  assert (Ecs : exists c0 r0, cs = c0 :: r0) by (unfold cs; destruct init; simpl; eauto).
+  destruct Ecs as [c0 [r0 E0]].
+  cbn [wrap_lines]. rewrite E0. cbn [negb andb]. rewrite <- E0.
+  rewrite Nat.sub_0_r. rewrite take_fit_all by lia. rewrite app_nil_r.
+  unfold cs at 1 2 3.
+  replace (init ++ [c'; spaces (S n)])%list with ((init ++ [c']) ++ [spaces (S n)])%list by (rewrite <- app_assoc; reflexivity).
+  rewrite rev_app_distr. cbn [rev app]. rewrite is_blank_spaces.
+  rewrite rev_app_distr. cbn [rev app].
+  rewrite wrap_lines_nil. cbn [join spaces].
+  rewrite rev_involutive. exact Cb.
+Qed.
+
 (* ================================================================== more dictionary facts *)
 Section AssocMore.
   Variables (K V W : Type) (eqb : K -> K -> bool).
@@ -297,17 +378,23 @@ Definition mname (k mk : string) : string := k ++ ":" ++ mk.
 Definition mkey_ok (mk : string) : Prop :=
   mk <> EmptyString /\ rstrip mk = mk /\ has_char eqsign mk = false /\ no_nl mk.
 
+(* a value as written: empty, or without leading/trailing whitespace and line breaks *)
+Definition wval_ok (x : string) : Prop := x = EmptyString \/ value_ok x.
+(* the line of an option with a value: an empty value leaves `key<pad> =` *)
+Definition wline (k x : string) : string :=
+  match x with EmptyString => pad_right key_width k ++ " =" | _ => plain_line k x end.
+
 Definition meta_item_ok (cs : bool) (w : nat) (k : string) (kv : string * option string) : Prop :=
   mkey_ok (fst kv) /\ xform cs (fst kv) = fst kv /\
   match snd kv with
-  | Some x => value_ok x /\ String.length (plain_line (mname k (fst kv)) x) <= w
+  | Some x => wval_ok x /\ String.length (plain_line (mname k (fst kv)) x) <= w
   | None => String.length (mname k (fst kv)) <= w
   end.
 
 Definition entry_ok (cs : bool) (w : nat) (ke : string * entry) : Prop :=
   fst ke = e_key (snd ke) /\ key_ok (e_key (snd ke)) /\ has_char colon (e_key (snd ke)) = false /\
   no_nl (e_key (snd ke)) /\ xform cs (e_key (snd ke)) = e_key (snd ke) /\
-  value_ok (e_val (snd ke)) /\
+  wval_ok (e_val (snd ke)) /\
   String.length (plain_line (e_key (snd ke)) (e_val (snd ke))) <= w /\
   NoDup (map fst (e_meta (snd ke))) /\ Forall (meta_item_ok cs w (e_key (snd ke))) (e_meta (snd ke)).
 
@@ -324,7 +411,7 @@ Definition view_ok (cs : bool) (w : nat) (v : sections) : Prop :=
   NoDup (map fst v) /\ Forall (section_ok cs w) v.
 
 Definition opt_line (o : string * option string) : string :=
-  match snd o with Some x => plain_line (fst o) x | None => fst o end.
+  match snd o with Some x => wline (fst o) x | None => fst o end.
 Definition entry_lines_of (ke : string * entry) : list string :=
   (map opt_line (entry_opts ke) ++ match e_meta (snd ke) with [] => [] | _ => [EmptyString] end)%list.
 Definition sect_lines (ns : string * sect) : list string :=
@@ -337,7 +424,7 @@ Fixpoint tail_lines (v : sections) : list string :=
 
 (* ---- one option line *)
 Definition opt_ok (cs : bool) (o : string * option string) : Prop :=
-  key_ok (fst o) /\ xform cs (fst o) = fst o /\ match snd o with Some x => value_ok x | None => True end.
+  key_ok (fst o) /\ xform cs (fst o) = fst o /\ match snd o with Some x => wval_ok x | None => True end.
 
 Lemma partition_nochar c s : has_char c s = false -> partition_on c s = (s, false, EmptyString).
 Proof.
@@ -364,12 +451,59 @@ Proof.
   destruct (r_opt st); [simpl; exact Enew|exact Enew].
 Qed.
 
+Lemma read_empty_line (cs : bool) (st : rstate) (k sn : string) opts :
+  key_ok k -> r_sect st = Some sn -> sget sn (r_done st) = Some opts ->
+  let k' := if cs then k else lower k in
+  smem k' opts = false ->
+  read_line cs (Ok st) (pad_right key_width k ++ " =") =
+  Ok (RState (sset (r_done st) sn (opts ++ [(k', Some [EmptyString])])%list) (Some sn) (Some k') 0).
+Proof.
+  intros [Hk [Hkr Hke]] Hs Ho k' Hm. destruct k as [|a kr]; [contradiction|]. destruct Hk as [Ha1 [Ha2 [Ha3 Ha4]]].
+  set (line := pad_right key_width (String a kr) ++ " =").
+  assert (Eline : line = String a (kr ++ spaces (key_width - String.length (String a kr)) ++ " =")).
+  { unfold line, pad_right. simpl. rewrite !app_assoc_s. reflexivity. }
+  assert (Els : lstrip line = line) by (rewrite Eline; apply lstrip_nonspace; exact Ha4).
+  assert (Estrip : strip line = line).
+  { unfold strip. rewrite Els. unfold line.
+    replace (pad_right key_width (String a kr) ++ " =") with ((pad_right key_width (String a kr) ++ " ") ++ "=")
+      by (rewrite app_assoc_s; reflexivity).
+    apply rstrip_app_keep; [reflexivity|discriminate]. }
+  assert (Ecom : is_comment line = false) by (rewrite Eline; apply is_comment_other; assumption).
+  assert (Eind : indent_of line = 0) by (unfold indent_of; rewrite Els; apply Nat.sub_diag).
+  unfold read_line. rewrite Estrip, Ecom. rewrite Eline at 1. cbv iota. try rewrite <- Eline. rewrite Eind, Hs.
+  assert (Enew : new_line cs st line 0 =
+                 Ok (RState (sset (r_done st) sn (opts ++ [(k', Some [EmptyString])])%list) (Some sn) (Some k') 0)).
+  { unfold new_line. rewrite Eline at 1. rewrite header_of_other by assumption. rewrite Hs.
+    assert (Epart : partition_on eqsign line = (pad_right key_width (String a kr) ++ " ", true, EmptyString)).
+    { unfold line.
+      replace (pad_right key_width (String a kr) ++ " =")
+        with ((pad_right key_width (String a kr) ++ " ") ++ String eqsign EmptyString) by (rewrite app_assoc_s; reflexivity).
+      apply partition_app_nochar. unfold has_char, pad_right. rewrite !any_app.
+      unfold has_char in Hke. rewrite Hke. rewrite any_spaces by reflexivity. reflexivity. }
+    rewrite Epart.
+    assert (Ers : rstrip (pad_right key_width (String a kr) ++ " ") = String a kr).
+    { unfold pad_right. rewrite app_assoc_s. rewrite rstrip_app_space; [exact Hkr|].
+      rewrite sall_app, sall_spaces. reflexivity. }
+    rewrite Ers. rewrite Ho. fold k'. rewrite Hm. reflexivity. }
+  destruct (r_opt st); [simpl; exact Enew|exact Enew].
+Qed.
+
 Lemma read_opt (cs : bool) st Nd sn no (o : string * option string) :
   rinv st Nd sn no -> opt_ok cs o -> smem (fst o) no = false ->
   exists st', read_line cs (Ok st) (opt_line o) = Ok st' /\ rinv st' Nd sn (no ++ [o]).
 Proof.
   intros I [Hk [Hx Hv]] Hm. destruct o as [k [v|]]; simpl in *.
-  - unfold opt_line. simpl. apply read_entry; assumption.
+  - unfold opt_line. simpl. destruct Hv as [->|Hv].
+    + destruct (rinv_sget _ _ _ _ I) as [opts [Eo En]]. destruct I as [N [D S]].
+      pose proof (read_empty_line cs st k sn opts Hk S Eo) as R. cbv zeta in R. unfold xform in Hx. rewrite Hx in R.
+      rewrite <- En, smem_norm in Hm. specialize (R Hm).
+      eexists. split; [exact R|]. split; [|split; [exact D|reflexivity]].
+      cbn [r_done]. unfold sset. rewrite norm_parsed_aset, N.
+      rewrite aset_last by (exact string_eqb_spec || exact D).
+      unfold norm_sect at 1. rewrite map_app. cbn [map fst snd].
+      fold (norm_sect opts). rewrite En. reflexivity.
+    + assert (Ew : wline k v = plain_line k v) by (destruct Hv as [Vn _]; destruct v; [contradiction|reflexivity]).
+      rewrite Ew. apply read_entry; assumption.
   - destruct (rinv_sget _ _ _ _ I) as [opts [Eo En]]. destruct I as [N [D S]].
     pose proof (read_novalue_line cs st k sn opts Hk S Eo) as R. cbv zeta in R. unfold xform in Hx. rewrite Hx in R.
     rewrite <- En, smem_norm in Hm. specialize (R Hm).
@@ -648,13 +782,29 @@ Proof.
   rewrite (ends_nonblank_app " = ") by exact Vn. apply rstrip_ends; assumption.
 Qed.
 
+Lemma fill_wline w k x :
+  key_ok k -> wval_ok x -> String.length (plain_line k x) <= w ->
+  fill w (key_width + 3) (pad_right key_width k ++ " = " ++ x) = wline k x.
+Proof.
+  intros Hk [->|Hv] L.
+  - change (wline k "") with (pad_right key_width k ++ " =").
+    change (pad_right key_width k ++ " = " ++ "") with (pad_right key_width k ++ " = ").
+    replace (pad_right key_width k ++ " = ") with ((pad_right key_width k ++ " =") ++ spaces 1)
+      by (rewrite app_assoc_s; reflexivity).
+    apply fill_fits_trailing.
+    + rewrite ends_nonblank_app by discriminate. reflexivity.
+    + unfold plain_line in L. rewrite app_assoc_s. exact L.
+  - assert (Ew : wline k x = plain_line k x) by (destruct Hv as [Vn _]; destruct x; [contradiction|reflexivity]).
+    rewrite Ew. apply fill_fits; [apply ends_plain; exact Hv|exact L].
+Qed.
+
 Lemma entry_lines_eq cs w ke : entry_ok cs w ke -> entry_lines w true (snd ke) = entry_lines_of ke.
 Proof.
-  intros [_ [_ [_ [_ [_ [Hv [L [_ Fm]]]]]]]].
+  intros [_ [Hk [_ [_ [Hx [Hv [L [_ Fm]]]]]]]].
   unfold entry_lines, entry_lines_of, entry_opts. cbv zeta.
   assert (E1 : fill w (key_width + 3) (pad_right key_width (e_key (snd ke)) ++ " = " ++ e_val (snd ke))
-               = plain_line (e_key (snd ke)) (e_val (snd ke))).
-  { apply fill_fits; [apply ends_plain; exact Hv|exact L]. }
+               = wline (e_key (snd ke)) (e_val (snd ke))).
+  { apply fill_wline; assumption. }
   rewrite E1.
   assert (Emap : map (fun kv : string * option string =>
                         match snd kv with
@@ -663,8 +813,9 @@ Proof.
                         end) (e_meta (snd ke))
                  = map opt_line (map (fun kv => (mname (e_key (snd ke)) (fst kv), snd kv)) (e_meta (snd ke)))).
   { rewrite map_map. apply map_ext_in. intros kv Hkv. rewrite Forall_forall in Fm.
-    destruct (Fm kv Hkv) as [[Mn [Mr _]] [_ M3]]. unfold opt_line. cbn [fst snd]. destruct (snd kv) as [x|].
-    - destruct M3 as [Vx Lx]. apply fill_fits; [apply (ends_plain (mname _ _)); exact Vx|exact Lx].
+    destruct (Fm kv Hkv) as [[Mn [Mr Mrest]] [Mx M3]]. unfold opt_line. cbn [fst snd]. destruct (snd kv) as [x|].
+    - destruct M3 as [Vx Lx]. apply (fill_wline w (mname _ _)); [|exact Vx|exact Lx].
+      exact (proj1 (mname_ok cs _ _ Hk Hx (conj Mn (conj Mr Mrest)) Mx)).
     - apply fill_fits; [|exact M3]. unfold mname. rewrite ends_nonblank_app by (simpl; discriminate).
       rewrite (ends_nonblank_app ":") by exact Mn. apply rstrip_ends; assumption. }
   destruct (e_meta (snd ke)) as [|m0 mr]; [reflexivity|].
@@ -753,16 +904,25 @@ Proof.
   intros Hk Hx. unfold plain_line, pad_right. repeat apply no_nl_app; try assumption; try reflexivity. apply no_nl_spaces.
 Qed.
 
+Lemma no_nl_wline k x : no_nl k -> no_nl x -> no_nl (wline k x).
+Proof.
+  intros Hk Hx. destruct x; [|apply no_nl_plain; assumption].
+  unfold wline, pad_right. repeat apply no_nl_app; try assumption; try reflexivity. apply no_nl_spaces.
+Qed.
+
+Lemma wval_no_nl x : wval_ok x -> no_nl x.
+Proof. intros [->|[_ [_ [_ H]]]]; [reflexivity|exact H]. Qed.
+
 Lemma entry_lines_no_nl cs w ke : entry_ok cs w ke -> Forall no_nl (entry_lines_of ke).
 Proof.
-  intros [_ [_ [_ [Kn [_ [[_ [_ [_ Vn]]] [_ [_ Fm]]]]]]]]. unfold entry_lines_of, entry_opts.
+  intros [_ [_ [_ [Kn [_ [Hv [_ [_ Fm]]]]]]]]. pose proof (wval_no_nl _ Hv) as Vn. unfold entry_lines_of, entry_opts.
   apply Forall_app. split.
-  - cbn [map]. constructor; [unfold opt_line; cbn [fst snd]; apply no_nl_plain; assumption|].
+  - cbn [map]. constructor; [unfold opt_line; cbn [fst snd]; apply no_nl_wline; assumption|].
     rewrite map_map. rewrite Forall_forall in *. intros l Hl. apply in_map_iff in Hl. destruct Hl as [kv [<- Hkv]].
     destruct (Fm kv Hkv) as [[_ [_ [_ Mn]]] [_ M3]]. unfold opt_line. cbn [fst snd].
     assert (Nm : no_nl (mname (e_key (snd ke)) (fst kv))).
     { unfold mname. repeat apply no_nl_app; try assumption; reflexivity. }
-    destruct (snd kv) as [x|]; [|exact Nm]. apply no_nl_plain; [exact Nm|]. destruct M3 as [[_ [_ [_ Xn]]] _]. exact Xn.
+    destruct (snd kv) as [x|]; [|exact Nm]. apply no_nl_wline; [exact Nm|]. destruct M3 as [Xv _]. exact (wval_no_nl _ Xv).
   - destruct (e_meta (snd ke)); repeat constructor.
 Qed.
 
